@@ -36,6 +36,8 @@ OP_STEP: Dict[str, Tuple[float, float, float]] = {}
 
 
 REQUIRE_PARAM_GRADS: set = set()
+# operations with kinks other than the transform stacks (one-sided slope test, loose tolerance at the float32 step)
+KINKY_OPS: set = set()
 
 
 def op(name: str, step: Optional[Tuple[float, float]] = None):
@@ -166,7 +168,7 @@ def check_op(name: str, case: dict) -> Optional[Tuple[str, str]]:
         if saved and any(bool((v0.float().to(F64) != v0).any()) for v0 in saved.values()) and rounded == base:
             casts = True
     # levels: (step h, self-consistency tolerance between the differences at h and h/4, comparison tolerance)
-    kinky = name.startswith("spatial.")
+    kinky = name.startswith("spatial.") or name in KINKY_OPS
     coarse = (4e-3, 5e-3, 5e-2 if kinky else 1.5e-2)
     mid = (1e-5, 2e-3, 3e-2 if kinky else 6e-3)
     # transform stacks interpolate with float32 grid coordinates (Grid.coords() is float32, grid_sample casts the field to
@@ -955,8 +957,13 @@ def _pointset_loss(cls_name, which):
     return build
 
 
+# the losses compute in float32 (`x.float()`), so the float32 step (4e-3) is used; the closest-point assignment is piecewise
+# constant and that step can cross an assignment switch, where the distance has a kink: a secant across the kink is not the
+# one-sided derivative autograd rightly returns (seen with seed 101). These operations are therefore treated like the
+# transform stacks: a direction whose one-sided slopes differ is inconclusive
 op("losses.ClosestPointDistance")(_pointset_loss("ClosestPointDistance", "xy"))
 op("losses.LandmarkPointDistance")(_pointset_loss("LandmarkPointDistance", "xy"))
+KINKY_OPS.update({"losses.ClosestPointDistance", "losses.LandmarkPointDistance"})
 
 
 @op("spatial.PointSetTransformer[AffineTransform]")
